@@ -191,9 +191,39 @@ theorem notFilled_noAlloc {s : St} (h : notFilled s = []) : NoAlloc s := by
   · next i hi => rw [hi] at this; simp at this
   · rfl
 
+theorem aget_map_val {α β : Type} (f : α → β) (l : AList α) (k : String) :
+    aget (l.map (fun p => (p.1, f p.2))) k = (aget l k).map f := by
+  induction l with
+  | nil => rfl
+  | cons q l ih =>
+    obtain ⟨a, b⟩ := q
+    rw [List.map_cons, aget_cons, aget_cons]
+    by_cases hk : k = a
+    · rw [if_pos hk, if_pos hk]; rfl
+    · rw [if_neg hk, if_neg hk]; exact ih
+
+/-- freezing the slot values of a row does not touch its id -/
+theorem idNat_freeze (s : St) (r : RowData) :
+    idNat { r with values := r.values.map (fun p => (p.1, freezeVal s p.2)) } = idNat r := by
+  have e := aget_map_val (freezeVal s) r.values "id"
+  unfold aget at e
+  simp only [idNat, e]
+  cases hl : List.lookup "id" r.values with
+  | none => rfl
+  | some v => cases v <;> rfl
+
+theorem freezeRows_sigs (s : St) : (freezeRows s).map sig = s.rows.map sig := by
+  unfold freezeRows
+  rw [List.map_map]
+  apply List.map_congr_left
+  intro r _
+  exact congrArg (Prod.mk r.table) (idNat_freeze s r)
+
+theorem resetSlots_sigs (s : St) : sigs (resetSlots s) = sigs s := freezeRows_sigs s
+
 theorem resetSlots_good {s : St} (hg : Good s) (hz : NoAlloc s) :
     Good (resetSlots s) ∧ NoAlloc (resetSlots s) :=
-  ⟨GoodF_reset hg hz, fun T => aIdsOf_unused _ _ T⟩
+  ⟨GoodF_rows (rows := s.rows) (freezeRows_sigs s) (GoodF_reset hg hz), fun T => aIdsOf_unused _ _ T⟩
 
 theorem aget_filter {α : Type} (p : String × α → Bool) (l : AList α) {k : String} {v : α}
     (h : aget l k = some v) (hp : p (k, v) = true) : aget (l.filter p) k = some v := by
@@ -223,11 +253,13 @@ theorem idNat_dropRows {r : RowData} (h : (idNat r).isSome) :
   simp only [idNat, e, hi]
 
 theorem saveLoad_sigs {s : St} (hg : Good s) : sigs (saveLoad s) = sigs s := by
-  unfold sigs saveLoad
+  unfold sigs saveLoad freezeRows
   simp only [List.map_map]
   apply List.map_congr_left
   intro r hr
-  exact congrArg (Prod.mk r.table) (idNat_dropRows (hg.2.2.1 r hr))
+  have h1 : (idNat { r with values := r.values.map (fun p => (p.1, freezeVal s p.2)) }).isSome := by
+    rw [idNat_freeze]; exact hg.2.2.1 r hr
+  exact congrArg (Prod.mk r.table) ((idNat_dropRows h1).trans (idNat_freeze s r))
 
 theorem saveLoad_good {s : St} (hg : Good s) (hz : NoAlloc s) :
     Good (saveLoad s) ∧ NoAlloc (saveLoad s) ∧ Rel s (saveLoad s) :=
@@ -255,7 +287,7 @@ theorem iterations_tr (P : NoIdP) (fuel : Nat) (r : Recipe) (hP : P.st r.stateme
         obtain ⟨hg1, rel1⟩ := stmts_tr P hP hs hg
         obtain ⟨hg2, hz2⟩ := resetSlots_good hg1 (notFilled_noAlloc hnf)
         obtain ⟨hg3, hz3, rel3⟩ := ih _ _ _ _ _ h hg2 hz2
-        exact ⟨hg3, hz3, rel1.trans ((Rel.of_eq (s := s1) (s' := resetSlots s1) rfl rfl).trans rel3)⟩
+        exact ⟨hg3, hz3, rel1.trans ((Rel.of_eq (s := s1) (s' := resetSlots s1) (resetSlots_sigs s1) rfl).trans rel3)⟩
 
 theorem chain_tr (P : NoIdP) (fuel : Nat) (r : Recipe) (hP : P.st r.statements) (fs : Bool)
     (parts : List Nat) : ∀ (cont : Bool) (s s' : St),
